@@ -169,6 +169,19 @@ func checkC08(c *an.Ctx) {
 					}
 					return
 				}
+				// a stage is one object shared by every run of its pipeline (and by every includer of that pipeline):
+				// its own overrides are written when it is built and by nobody afterwards
+				if ok && an.TypeIs(fa.X.Type(), "pkg/scheduler", "Stage") && fields[an.AccessPath(fa).LastField()] {
+					n++
+					name := an.AccessPath(fa).LastField()
+					key := an.Short(fn) + ":write(Stage." + name + ")"
+					if fresh, copied := an.FreshBase(fa.X); fresh && !copied {
+						c.OK(rule1, key, x.Pos(), "written on a stage built here")
+					} else {
+						c.Bad(rule1, key, x.Pos(), "%s writes Stage.%s through %s, a stage it did not build: the stage belongs to a graph that can be run on its own, again, or from another includer, and all of them then see this value", an.Short(fn), name, an.Prov(fa.X))
+					}
+					return
+				}
 				if !ok || !an.TypeIs(fa.X.Type(), "pkg/task", "Task") {
 					return
 				}
